@@ -99,6 +99,16 @@ class World:
                     reqs.append(['disconnect', None])
                     live = []
             conns.append(reqs)
+        if not small and rng.random() < 0.12:
+            # names that are prefixes of one another: a connection holds a scope of the longer name and of the shorter one,
+            # leaves the shorter one (deactivate, or enters and leaves it) while the parameters of the longer one keep changing
+            long_, short = rng.choice([('m10', 'm1'), ('m10:_x', 'm1'), ('m0:_x2', 'm0:_x'), ('m10', 'm1:_y')])
+            inside = [pp for pp in params if self.covers(long_, *pp)]
+            reqs = [['activate', long_], ['activate', short], ['deactivate', short]]
+            if rng.random() < 0.5:
+                reqs = [['activate', short], ['activate', long_], ['deactivate', short]]
+            upd = [[[mn, p] for mn, p in (rng.choice(inside) for _ in range(rng.randint(3, 6)))] for _ in range(len(upd))]
+            return {'conns': [reqs] + conns[:1], 'updaters': upd, 'shared': len(upd) > 1, 'prefix_pair': [long_, short]}
         if not small and rng.random() < 0.25:
             # contended scope: one connection leaves (disconnect / *IDN? / deactivate) a narrow scope which another one
             # enters at the same time, while the parameters in it keep changing
@@ -175,6 +185,16 @@ class World:
                 t.start()
             for t in ths:
                 t.join()
+            # when everybody is done every parameter changes once more: a subscription that was lost on the way shows
+            for mn, ps in MODS.items():
+                for p in ps:
+                    key = (mn, p, 'settle' if shared else None)
+                    v = version.get((mn, p, None), 0) + 1 if not shared else 900000 + version.get(key, 0) + 1
+                    version[(mn, p, None) if not shared else key] = v if not shared else version.get(key, 0) + 1
+                    s_ = D.CURRENT
+                    s_.log('chg-call', mn, p, v)
+                    setattr(mods[mn], p, v)
+                    s_.log('chg-ret', mn, p, v)
         s = D.Sched(strategy, seed, horizon=100, max_steps=100000)
         s.run(root, wall_timeout=60)
         case = {'scenario': scen, 'strategy': ['prefix', [list(x) for x in strategy[1]]] if strategy[0] == 'prefix' else list(strategy), 'seed': seed}
@@ -388,6 +408,29 @@ def run_shard(shard):
             w.run(scen, ('rw', rng.choice([0.05, 0.2, 0.5])), seed)
         else:
             w.run(scen, ('pct', 2, 150), seed)
+    # contended scopes (one connection leaves a scope another one enters): every single preemption point of two such
+    # scenarios per shard, time-boxed
+    for _ in range(1 if shard.get('tier') == 'quick' else 12):
+        for _try in range(60):
+            scen = w.gen_scenario(rng)
+            if 'contended' in scen:
+                break
+        else:
+            continue
+        t_end = time.time() + (5 if shard.get('tier') == 'quick' else 12)
+        stack = [[]]
+        nrun = 0
+        while stack and time.time() < t_end:
+            prefix = stack.pop()
+            s = w.run(scen, ('prefix', [tuple(x) for x in prefix]), 0)
+            nrun += 1
+            if not prefix and s.status == 'ok':
+                for i in range(len(s.choice_log)):
+                    for alt in s.choice_log[i]:
+                        stack.append([[i, alt]])
+        r.count('contended_scope_sweeps')
+        r.count('contended_scope_sweep_runs', nrun)
+        r.count('contended_scope_sweeps_complete' if not stack else 'contended_scope_sweeps_truncated')
     w.D.unwatch_all()
     r.exhaustive = None     # randomised part is not exhaustive; the sweeps report their completion in the counters
     return r.result()
